@@ -440,16 +440,19 @@ type built struct {
 
 func build(r *vlib.Run, phase, idx int) built {
 	rng := r.Rand(phase, idx)
-	n := 3 + rng.Intn(4) // 3..6
-	if rng.Intn(5) == 0 {
-		n = 1 + rng.Intn(9)
+	// every Vote costs ~0.1s of CPU under -race (the ballotbox serialises the
+	// sign fact for its logger), boxes are driven one at a time: small
+	// suffrages, few heights in the quick tier
+	n := 3 + rng.Intn(r.N(2, 4)) // quick 3..4, thorough 3..6
+	if rng.Intn(6) == 0 {
+		n = 1 + rng.Intn(r.N(5, 9))
 	}
 	th := []base.Threshold{60, 67, 67, 67, 75, 100}[rng.Intn(6)]
 	localIn := rng.Intn(5) > 0
 	w := bbrig.NewWorld(fmt.Sprintf("c05-%d-%d-%d", r.Seed, phase, idx), n, th, localIn, 33)
 	o := bbrig.ScriptOpts{
-		Heights:   4 + rng.Intn(3),
-		Noise:     0.15,
+		Heights:   r.N(3, 4) + rng.Intn(2),
+		Noise:     0.12,
 		Hostile:   0.05,
 		ExpelProb: 0.6,
 		DrawProb:  0.25,
@@ -626,7 +629,7 @@ func descs(steps []bbrig.Step, n int) []string {
 func TestC05(t *testing.T) {
 	r := vlib.Start(t, "C05", vlib.LevelExploration)
 	defer r.Finish()
-	r.SetRule("case = generated script (4-6 consecutive heights x rounds x INIT / suffrage-confirm / ACCEPT votes, expel heights, draws, deferred suffrage, noise: outsiders, conflicting and old/future ballots, SetLastPoint, stuck requests, MissingNodes) against one real Ballotbox at a time; after every step (single-threaded phase) or every 16-step chunk run by 2-12 goroutines (concurrent phase): hook H1 record list, pool-put stream, Voted and MissingNodes of every touched point, emitted voteproofs; distinct = (n, threshold, local, script hash, phase, goroutines); non-trivial = at least one cleanup cycle happened in the case (the last point moved by counting, which is when clean() runs)")
+	r.SetRule("case = generated script (3-5 consecutive heights x rounds x INIT / suffrage-confirm / ACCEPT votes, expel heights, draws, deferred suffrage, noise: outsiders, conflicting and old/future ballots, SetLastPoint, stuck requests, MissingNodes) against one real Ballotbox at a time; after every step (single-threaded phase) or every 16-step chunk run by 2-12 goroutines (concurrent phase): hook H1 record list, pool-put stream, Voted and MissingNodes of every touched point, emitted voteproofs; distinct = (n, threshold, local, script hash, phase, goroutines); non-trivial = at least one cleanup cycle happened in the case (the last point moved by counting, which is when clean() runs)")
 	r.Assume("only ballots and sign facts that pass IsValid(networkID) are submitted")
 	r.Assume("one ballotbox is driven at a time (the record pool and its put hook are process-global); boxes of finished cases are stopped")
 	r.Assume("(v) 'nothing below the last point is reachable right after a cleanup' and the exact forms of (i)/(ii) are judged in the single-threaded phase only: with concurrent voters a vote may legitimately create a record for a point the box passes a moment later; the release checks at the pool-put hook and the structural checks are judged in both phases")
@@ -642,8 +645,8 @@ func TestC05(t *testing.T) {
 	defer isaacstates.VerifObservePoolPut(nil)
 
 	// build all scripts first (signing and IsValid are the expensive part), in parallel
-	n1 := r.N(16, 300)
-	n2 := r.N(12, 200)
+	n1 := r.N(12, 60)
+	n2 := r.N(8, 40)
 	t0 := time.Now()
 	cases1 := make([]built, n1)
 	cases2 := make([]built, n2)
